@@ -90,7 +90,7 @@ PROPS = {
                  ">=2 capabilities (OPEN), or NOTIFICATION data; distinct by recipe hash"),
         "assumptions": ["path identifiers are compared only for families with ADD-PATH on (otherwise not on the wire)"],
         "units": [
-            {"pkg": B, "test": "TestVerifC04", "quick": (12, 40000), "thorough": (16, 2000000)},
+            {"pkg": B, "test": "TestVerifC04", "env": {"VERIF_CASE_SECONDS": "30", "VERIF_CASE_HEAP_MB": "1536"}, "quick": (12, 40000), "thorough": (16, 2000000)},
         ],
     },
     "C07": {
@@ -140,7 +140,7 @@ PROPS = {
                  "message type or attribute/NLRI/capability kind, outcome class)"),
         "assumptions": [],
         "units": [
-            {"pkg": B, "test": "TestVerifC05", "quick": (16, 30000), "thorough": (16, 1500000)},
+            {"pkg": B, "test": "TestVerifC05", "env": {"VERIF_CASE_SECONDS": "30", "VERIF_CASE_HEAP_MB": "1536"}, "quick": (16, 30000), "thorough": (16, 1500000)},
             {"pkg": B, "kind": "fuzz", "test": "FuzzVerifC05", "fuzz_seconds": 600},
         ],
     },
@@ -356,11 +356,11 @@ PROPS = {
                  "BGP message / has at least two entries; distinct by case hash"),
         "assumptions": [],
         "units": [
-            {"pkg": "pkg/packet/mrt", "test": "TestVerifC19_mrt", "quick": (8, 4000), "thorough": (16, 400000)},
-            {"pkg": "pkg/packet/bmp", "test": "TestVerifC19_bmp", "quick": (8, 4000), "thorough": (16, 400000)},
-            {"pkg": "pkg/packet/rtr", "test": "TestVerifC19_rtr", "quick": (4, 10000), "thorough": (16, 1000000)},
-            {"pkg": "pkg/zebra", "test": "TestVerifC19_zebra", "quick": (8, 3000), "thorough": (16, 300000)},
-            {"pkg": "pkg/packet/bfd", "test": "TestVerifC19_bfd", "quick": (4, 10000), "thorough": (16, 1000000)},
+            {"pkg": "pkg/packet/mrt", "test": "TestVerifC19_mrt", "env": {"VERIF_CASE_SECONDS": "30", "VERIF_CASE_HEAP_MB": "1536"}, "quick": (8, 4000), "thorough": (16, 400000)},
+            {"pkg": "pkg/packet/bmp", "test": "TestVerifC19_bmp", "env": {"VERIF_CASE_SECONDS": "30", "VERIF_CASE_HEAP_MB": "1536"}, "quick": (8, 4000), "thorough": (16, 400000)},
+            {"pkg": "pkg/packet/rtr", "test": "TestVerifC19_rtr", "env": {"VERIF_CASE_SECONDS": "30", "VERIF_CASE_HEAP_MB": "1536"}, "quick": (4, 10000), "thorough": (16, 1000000)},
+            {"pkg": "pkg/zebra", "test": "TestVerifC19_zebra", "env": {"VERIF_CASE_SECONDS": "30", "VERIF_CASE_HEAP_MB": "1536"}, "quick": (8, 3000), "thorough": (16, 300000)},
+            {"pkg": "pkg/packet/bfd", "test": "TestVerifC19_bfd", "env": {"VERIF_CASE_SECONDS": "30", "VERIF_CASE_HEAP_MB": "1536"}, "quick": (4, 10000), "thorough": (16, 1000000)},
             {"pkg": S, "test": "TestVerifC19_daemon_mrt", "quick": (4, 250), "thorough": (16, 20000)},
             {"pkg": S, "test": "TestVerifC19_daemon_bmp", "quick": (8, 150), "thorough": (16, 10000)},
             {"pkg": "pkg/packet/mrt", "kind": "fuzz", "test": "FuzzVerifC19_mrt", "fuzz_seconds": 240},
